@@ -29,7 +29,30 @@ def gen_scenario(rng, cfg):
     lines = []
     ncmd = 1 + rng.below(cfg.get("max_cmds", 3))
     for ci in range(ncmd):
-        if cfg.get("builtins") and rng.chance(25):
+        if cfg.get("substitutions") and rng.chance(45):
+            # a redirected command inside a command substitution: the capture pipes take the streams
+            # that are not redirected (dup forms are not generated there: the code documents that
+            # `2>&1` inside a substitution is not supported)
+            name = "c%d_i" % ci
+            redirs = [r for r in gen_redirs(rng, allow_bad=False, allow_in=False) if r["k"] == "out"]
+            if not redirs:
+                redirs = [{"k": "out", "fd": rng.choice([1, 2]), "append": rng.chance(40), "target": rng.choice(plines.FILES),
+                           "spaced": rng.chance(50), "explicit1": False}]
+            role = gen_io_role(rng, name, False)
+            # (markers without `<`/`>`: in a substitution they would be re-read as redirections -- a recorded
+            # text-level finding of C11, not this check's subject)
+            role["writes"] = [{"fd": w["fd"], "hex": ("m-%s-%d-fd%d\n" % (name, i, w["fd"])).encode().hex()}
+                              for i, w in enumerate(role["writes"])]
+            if not any(w["fd"] == 2 for w in role["writes"]):
+                role["writes"].append({"fd": 2, "hex": ("m-%s-err\n" % name).encode().hex()})
+            inner = [{"kind": "pup", "name": name, "role": role, "text": "pup " + name, "redirs": redirs}]
+            inner_text = plines.render_stage(inner[0])
+            sub = "$(%s)" % inner_text if rng.chance(60) else "`%s`" % inner_text
+            outer = [{"kind": "pup", "name": "c%d_o" % ci, "text": "pup c%d_o" % ci, "args": ["w" + sub],
+                      "role": {"t": "io", "read": "none", "writes": [], "code": 0}, "redirs": []}]
+            lines.append({"groups": [{"stages": inner, "capture": True}, {"stages": outer, "capture": False}],
+                          "stages": outer, "probe": False})
+        elif cfg.get("builtins") and rng.chance(25):
             # an output-producing builtin running inside the shell process, redirected
             redirs = [r for r in gen_redirs(rng, allow_bad=False, allow_in=False) if r["k"] in ("out", "dup")]
             b = rng.choice(["alias", "cd /nonexistent_zz"])
@@ -94,9 +117,7 @@ class C04Runner(LineRunner):
                 k = f[0]
                 order = [r for r in opens if r["k"] == "in"] + [r for r in opens if r["k"] == "out"]
                 if k <= len(order):
-                    for fd in (1, 2):
-                        if isinstance(st.objs.get(fd), Pipe):
-                            st.objs[fd].opaque = True
+                    self.diagnostic_may_land_anywhere(st)
                     st.unopenable = order[k - 1]["target"] + " (injected errno %d)" % f[1]
                     st.inject_open = (k, f[1])
                     for o in opens:
@@ -143,11 +164,12 @@ class C04Runner(LineRunner):
 
 
 CONFIGS = {
-    "plain": ({"max_cmds": 3, "bad": False, "hs_sizes": (0, 1, 5, 100)}, 35),
-    "bad_targets": ({"max_cmds": 3, "bad": True, "hs_sizes": (0, 1, 5, 100)}, 25),
+    "plain": ({"max_cmds": 3, "bad": False, "hs_sizes": (0, 1, 5, 100)}, 30),
+    "bad_targets": ({"max_cmds": 3, "bad": True, "hs_sizes": (0, 1, 5, 100)}, 23),
     "big_here_strings": ({"max_cmds": 2, "bad": False, "hs_sizes": (100, 65536, 70000, 150000)}, 15),
     "builtins": ({"max_cmds": 3, "bad": False, "builtins": True, "hs_sizes": (0, 5)}, 10),
-    "open_faults": ({"max_cmds": 2, "bad": False, "open_fault": True, "hs_sizes": (0, 5)}, 15),
+    "open_faults": ({"max_cmds": 2, "bad": False, "open_fault": True, "hs_sizes": (0, 5)}, 12),
+    "substitutions": ({"max_cmds": 3, "bad": False, "substitutions": True, "hs_sizes": (0, 5)}, 10),
 }
 
 TIERS = {"quick": 2400, "thorough": 40000}
